@@ -10,11 +10,24 @@
 // @oracle for every stream whose string sink is on: the string is the concatenation of what was emitted, line accessor i returns exactly line i of the string, "" outside 0..count-1, count = number of lines; a sink that is off stays empty; the dump line view always mirrors the complete dump string (also when the dump appends); each call starts with first_read_input set and simulation numbering at 1, forces selected-output headings to be redefined in simulation 1 only, creates one value table per defined user number and marks the component list stale
 // @stubs Phreeqc engine entry points called by do_run (events, see harness/common/engine_run_stubs.inc); iostream model
 // @outside what the engine writes; files on disk (stream pointers are null: file switches off)
+// @id C09.views_after_stopped_run
+// @also C08
+// @engine B
+// @entry vfh_C09_stopped_run
+// @shared_state_watch
+// @tier Q
+// @reach stopped_run.done
+// @funcs IPhreeqc::RunString; IPhreeqc::do_run; IPhreeqc::check_database; IPhreeqc::update_errors
+// @bounds the real RunString -> do_run path with the stub engine of C09.do_run_views emitting text in 1..3 simulations; the run stops on an error (the engine throws IPhreeqcStop, as error_msg(..., STOP) does) while reading simulation k in 0..3 (0 = no error; case split) after that simulation's text has been written; string switches all on or all off
+// @oracle whenever a run ends - normally or stopped by an error - every line view agrees with its string: line accessor i returns exactly line i of the output / log / selected-output string that the same instance returns, "" outside 0..count-1, count = number of lines; the call returns normally and its return value is non-zero exactly when it stopped on an error
+// @stubs as C09.do_run_views
+// @outside what the engine writes; files on disk
 #include "../common/engine_stubs.inc"
 #include "../common/engine_run_stubs.inc"
 #include "SelectedOutput.h"
 
 static IPhreeqc *g_ip;
+static int g_stop_at = 0;
 static void on_sim(Phreeqc *p, int k)
 {
 	/* the "engine" prints through the wrapper exactly as PHREEQC does */
@@ -33,6 +46,11 @@ static void on_sim(Phreeqc *p, int k)
 	}
 	p->dump_info.Set_append(g_dump_append != 0);
 	p->dump_info.SetAll(true);
+	if (k == g_stop_at)
+	{	/* an ERROR with STOP while this simulation is read */
+		p->input_error = 1;
+		throw IPhreeqcStop();
+	}
 }
 
 static bool lines_match(const char *str, int count, const char *(*get)(IPhreeqc *, int), IPhreeqc *ip)
@@ -107,4 +125,41 @@ extern "C" void vfh_C09_do_run(void)
 	ip->SetCurrentSelectedOutputUserNumber(3);
 	if (ss3) vf_check("selected_output.3.string", want_s3 == ip->GetSelectedOutputString());
 	vf_check("selected_output.3.lines", lines_match(ss3 ? want_s3.c_str() : "", ip->GetSelectedOutputStringLineCount(), g_sel, ip));
+}
+
+extern "C" void vfh_C09_stopped_run(void)
+{
+	new (&IPhreeqc::Instances) std::map<size_t, IPhreeqc*>();
+	IPhreeqc::InstancesIndex = 0;
+	IPhreeqc *ip = g_ip = new IPhreeqc();
+	g_sims = (int) vf_int("simulations", 1, 3);
+	g_stop_at = (int) vf_int("stops_in_simulation", 0, 3);
+	vf_assume(g_stop_at <= g_sims);
+	bool on = vf_int("string_switches_on", 0, 1) != 0;
+	ip->SetOutputStringOn(on); ip->SetLogStringOn(on); ip->SetDumpStringOn(on);
+	ip->SetCurrentSelectedOutputUserNumber(3); ip->SetSelectedOutputStringOn(on);
+	ip->SetCurrentSelectedOutputUserNumber(1); ip->SetSelectedOutputStringOn(on);
+	ip->log_on = true; ip->output_on = true; ip->punch_on = true;
+	g_dump_append = 0;
+	g_dump_text[0] = "SOLUTION_RAW 1\n -temp 25\n"; g_dump_text[1] = "SOLUTION_RAW 2\n -temp 30\n"; g_dump_text[2] = "MIX_RAW 3\n";
+	g_on_sim = on_sim; g_read = 0; g_evn = 0;
+	ip->DatabaseLoaded = true;
+	new (&ip->PhreeqcPtr->keycount) std::vector<int>(Keywords::KEY_COUNT_KEYWORDS, 0);
+	new (&ip->PhreeqcPtr->title_x) std::string();
+	/* leftovers of an earlier run in the line views */
+	ip->OutputLines.push_back("stale"); ip->LogLines.push_back("stale");
+
+	int rc = -99; bool threw = false;
+	try { rc = ip->RunString("SOLUTION 1\nEND\n"); } catch (...) { threw = true; }
+	vf_reach("stopped_run.done");
+	vf_check("stopped.returns_normally", !threw);
+	vf_check("stopped.nonzero_iff_error", (rc != 0) == (g_stop_at != 0));
+	vf_check("stopped.output_written_before_the_stop_is_kept", !on || strstr(ip->GetOutputString(), "out line 1") != 0);
+	vf_check("stopped.output_lines_agree_with_string", lines_match(on ? ip->GetOutputString() : "", ip->GetOutputStringLineCount(), g_out, ip));
+	vf_check("stopped.log_lines_agree_with_string", lines_match(on ? ip->GetLogString() : "", ip->GetLogStringLineCount(), g_log, ip));
+	for (int u = 1; u <= 3; u += 2)
+	{
+		if (ip->SetCurrentSelectedOutputUserNumber(u) != VR_OK) continue;
+		vf_check("stopped.selected_output_lines_agree_with_string", lines_match(on ? ip->GetSelectedOutputString() : "", ip->GetSelectedOutputStringLineCount(), g_sel, ip));
+	}
 }
